@@ -16,6 +16,11 @@ func finish(ctx *common.Ctx, p *Prog) *Prog {
 	if ctx.Rng.Chance(25) && len(p.Code) > 0 && CountOps(p.Code[0]) < 60 {
 		p.Slow = ctx.Rng.Intn(len(p.Code))
 	}
+	for _, r := range p.Code {
+		if HasExit(r) {
+			p.Yield, p.Slow = 0, -1 // see HasExit
+		}
+	}
 	if p.Cells == nil {
 		p.Cells = []string{}
 	}
@@ -211,6 +216,81 @@ func genDeadlock(ctx *common.Ctx) *Prog {
 	return finish(ctx, p)
 }
 
+// non-local exits out of with-mutex-lock: return-from / go to a block / tagbody outside it, at every depth, out
+// of nested locks, through ignore-errors and other blocks, in last and non-last position; other routines (and
+// the same one) take the mutexes afterwards
+func genExits(ctx *common.Ctx) *Prog {
+	r := ctx.Rng
+	kind := common.Pick(r, []string{"global", "clos", "flavor"})
+	p := &Prog{Shape: "exits", NMutex: 2, Mem: []int64{0}, Cells: []string{kind}}
+	nblock := 0
+	exitForm := func(rid int) Op {
+		tb := r.Bool()
+		b := rid*10 + nblock
+		nblock++
+		inner := []Op{Exit(tb, b)}
+		if r.Chance(40) {
+			inner = append([]Op{Store(0, lit(int64(10+r.Intn(80))))}, inner...)
+		}
+		if r.Chance(25) {
+			inner = append(inner, Store(0, lit(int64(100+r.Intn(50))))) // not the last form: slip carries on (C07)
+		}
+		heldM1 := false
+		wrap := func(x []Op, allowM1 bool) []Op {
+			switch r.Intn(6) {
+			case 0:
+				return []Op{Catch(x...)}
+			case 1:
+				if allowM1 && !heldM1 {
+					heldM1 = true
+					return []Op{Lock(1, x...)}
+				}
+			case 2: // another block / tagbody in between
+				nblock++
+				return []Op{Block(r.Bool(), rid*10+nblock+4, x...)}
+			case 3:
+				if r.Chance(50) {
+					return append(x, Load(0))
+				}
+			}
+			return x
+		}
+		body := wrap(inner, true)
+		lock := []Op{Lock(0, body...)}
+		lock = wrap(lock, true)
+		if r.Chance(30) {
+			lock = wrap(lock, true)
+		}
+		if r.Chance(30) {
+			lock = append(lock, Store(0, lit(int64(200+r.Intn(50))))) // skipped when the exit gets here
+		}
+		if r.Chance(8) { // no block of that name around: a control-error, caught
+			return Catch(lock...)
+		}
+		return Block(tb, b, lock...)
+	}
+	n := 2 + r.Intn(2)
+	for i := 0; i < n; i++ {
+		var ops []Op
+		rounds := 1 + r.Intn(2)
+		for k := 0; k < rounds; k++ {
+			if i == 0 || r.Chance(50) {
+				ops = append(ops, exitForm(i))
+			}
+			switch r.Intn(3) {
+			case 0:
+				ops = append(ops, Incr(0, 0, 1))
+			case 1:
+				ops = append(ops, Lock(1, Lock(0, Load(0))))
+			default:
+				ops = append(ops, Lock(0, Load(0)), Lock(1, Load(0)))
+			}
+		}
+		p.Code = append(p.Code, ops)
+	}
+	return finish(ctx, p)
+}
+
 // random small programs over everything
 func genSoup(ctx *common.Ctx) *Prog {
 	r := ctx.Rng
@@ -265,9 +345,17 @@ func genSoup(ctx *common.Ctx) *Prog {
 				if depth < 2 {
 					out = append(out, Lock(r.Intn(nmu), ops(rid, depth+1, 1+r.Intn(3), caught)...))
 				}
-			default:
+			case x < 95:
 				if depth < 2 {
 					out = append(out, Catch(ops(rid, depth+1, 1+r.Intn(3), true)...))
+				}
+			case x < 98:
+				if depth < 2 {
+					out = append(out, Block(r.Bool(), r.Intn(2), ops(rid, depth+1, 1+r.Intn(3), caught)...))
+				}
+			default:
+				if depth > 0 && (caught || r.Chance(50)) {
+					out = append(out, Exit(r.Bool(), r.Intn(2)))
 				}
 			}
 		}
@@ -287,7 +375,7 @@ func generate(ctx *common.Ctx) []*Prog {
 	}
 	for i := 0; i < small; i++ {
 		ps = append(ps, genPipe(ctx, 6), genStages(ctx, 5), genSelect(ctx, 5), genCounter(ctx, 6), genUnguarded(ctx, 4),
-			genErrors(ctx), genDeadlock(ctx), genSoup(ctx), genSoup(ctx), genSoup(ctx))
+			genErrors(ctx), genDeadlock(ctx), genSoup(ctx), genSoup(ctx), genSoup(ctx), genExits(ctx), genExits(ctx))
 	}
 	for i := 0; i < big; i++ {
 		ps = append(ps, genPipe(ctx, 50), genCounter(ctx, 60), genStages(ctx, 30))
